@@ -485,12 +485,45 @@ def task_constants(params, rec):
             rec.violation("algorithms.split_veltkamp-exception", dict(dtype=dt.__name__, exc=f"{type(e).__name__}: {e}"[:300]))
 
 
-TASKS = {"f16_pairs": task_f16_pairs, "f16_split": task_f16_split, "pairs": task_pairs, "constants": task_constants}
+def task_split_max(params, rec):
+    """utils.split_veltkamp_max: 'maximal s such that (2**s + 1) * x is finite' - every positive finite float16, sampled float32/float64"""
+    import warnings
+    from functional_algorithms import utils
+
+    for dt in (numpy.float16, numpy.float32, numpy.float64):
+        f = exact.fmt(dt)
+        pmax = int(-numpy.finfo(dt).machep) - 2
+        if f.bits == 16:
+            xs = exact.all_values(dt)
+            xs = xs[numpy.isfinite(xs) & (xs > 0)]
+        else:
+            rng = gen.rng_for(params.get("seed", 0), 102, f.bits)
+            xs = numpy.abs(gen.hostile_values(rng, dt, 3000))
+            big = dt(numpy.finfo(dt).max)
+            xs = numpy.concatenate([xs, (big / dt(2.0) ** numpy.arange(0, 60)).astype(dt), gen.neighbours((big / dt(2.0) ** numpy.arange(0, 40)).astype(dt), dt, k=2)])
+            xs = xs[numpy.isfinite(xs) & (xs > 0)]
+        with warnings.catch_warnings():
+            warnings.simplefilter("ignore")
+            with numpy.errstate(all="ignore"):
+                for x in xs:
+                    x = dt(x)
+                    s_ = utils.split_veltkamp_max(x)
+                    rec.count("evaluations")
+                    rec.count("judged:split_veltkamp_max")
+                    fin_s = bool(numpy.isfinite(dt(2**s_ + 1) * x)) if s_ >= 0 else False
+                    any_ok = bool(numpy.isfinite(dt(2) * x))  # s = 0 is the least demanding choice
+                    more = s_ < pmax and bool(numpy.isfinite(dt(2 ** (s_ + 1) + 1) * x))
+                    if (any_ok and not fin_s) or (fin_s and more):
+                        rec.violation("utils.split_veltkamp_max", dict(dtype=dt.__name__, x=x, s=int(s_), product_finite=fin_s, next_s_also_finite=more))
+                        break
+
+
+TASKS = {"f16_pairs": task_f16_pairs, "f16_split": task_f16_split, "pairs": task_pairs, "constants": task_constants, "split_max": task_split_max}
 SHARD_TIMEOUT = {"quick": 1500, "thorough": 7200}
 
 
 def plan(tier, seed):
-    t = [("f16_split", {}), ("constants", dict(seed=seed))]
+    t = [("f16_split", {}), ("constants", dict(seed=seed)), ("split_max", dict(seed=seed))]
     if tier == "quick":
         step = 124 * 16
         for s in range(16):
